@@ -264,7 +264,12 @@ func vclassifyErr(err error) (string, string) {
 	return "err-other", ""
 }
 
-func vresolveWith(r *Resolver, name string) vresult {
+func vresolveWith(r *Resolver, name string) (res vresult) {
+	defer func() {
+		if p := recover(); p != nil {
+			res = vresult{Res: "panic", Err: fmt.Sprint(p)}
+		}
+	}()
 	c, err := r.Resolve(name)
 	if err != nil {
 		k, m := vclassifyErr(err)
@@ -274,6 +279,85 @@ func vresolveWith(r *Resolver, name string) vresult {
 		return vresult{Res: "err-other", Err: "nil config, nil error"}
 	}
 	return vresult{Res: "ok", Cfg: c}
+}
+
+// ---------- operation sequences on ONE Loader ----------
+// The loader caches what it has read.  Every answer must nevertheless be a pure
+// function of the directory contents: the same as a fresh loader gives, whatever
+// was asked before (theorem load_is_history_independent).  ops: Resolve, Load,
+// LoadRaw, HasTarget on existing and missing names, with repetitions.
+type vop struct {
+	Op   string `json:"op"`
+	Name string `json:"name"`
+	Got  string `json:"got"`
+	Want string `json:"want"`
+}
+
+func vopResult(r *Resolver, op, name string, fields []vfield) (out string, res vchildOut) {
+	defer func() {
+		if p := recover(); p != nil {
+			out = "panic: " + fmt.Sprint(p)
+			res = vchildOut{Res: "panic", Err: fmt.Sprint(p)}
+		}
+	}()
+	switch op {
+	case "Resolve":
+		res, _ = vresToChild(vresolveWith(r, name), fields)
+	case "Load":
+		c, err := r.loader.Load(name)
+		switch {
+		case err != nil:
+			k, m := vclassifyErr(err)
+			res = vchildOut{Res: k, Miss: m}
+		case c == nil:
+			res = vchildOut{Res: "err-other", Err: "nil config, nil error"}
+		default:
+			res, _ = vresToChild(vresult{Res: "ok", Cfg: c}, fields)
+		}
+	case "LoadRaw":
+		raw, err := r.loader.LoadRaw(name)
+		switch {
+		case err != nil && raw == nil:
+			k, m := vclassifyErr(err)
+			return k + ":" + m, vchildOut{}
+		case err == nil && raw != nil:
+			return "raw:" + raw.Name + ":" + strings.Join(raw.Inherits, ","), vchildOut{}
+		default:
+			return fmt.Sprintf("inconsistent: raw==nil is %v, err==nil is %v", raw == nil, err == nil), vchildOut{}
+		}
+	case "HasTarget":
+		return strconv.FormatBool(r.HasTarget(name)), vchildOut{}
+	}
+	res.Err = "" // the text of the error wraps differently for Load and Resolve; kind and name are compared
+	b, _ := json.Marshal(res)
+	return string(b), res
+}
+
+func vrunSequence(r *vrng, dir string, class string, flat []vnode, names []string, fields []vfield) {
+	shared := NewResolver(dir)
+	ops := []string{"Resolve", "Resolve", "Load", "LoadRaw", "HasTarget"}
+	k := 6 + r.n(8)
+	hist := []vop{}
+	for i := 0; i < k; i++ {
+		op := ops[r.n(len(ops))]
+		name := names[r.n(len(names))]
+		if i > 0 && r.n(3) == 0 {
+			name = hist[r.n(len(hist))].Name // ask again for a name that was asked before
+		}
+		got, res := vopResult(shared, op, name, fields)
+		want, _ := vopResult(NewResolver(dir), op, name, fields)
+		hist = append(hist, vop{op, name, got, want})
+		if got != want {
+			hb, _ := json.Marshal(hist)
+			vemit(vrec{Kind: "viol", Key: "loader-history-dependent", Class: class, DB: flat, Q: name,
+				What: fmt.Sprintf("step %d of a sequence on one Loader: %s(%s) differs from the answer of a fresh Loader; sequence (op,name,got,want): %s", i+1, op, name, hb)})
+			return
+		}
+		if op == "Resolve" || op == "Load" {
+			// the answers also go to the Coq model: resolve is a function of (directory, name) only
+			vemit(vrec{Kind: "forest", Class: class + "+seq", DB: flat, Q: name, Res: res.Res, Miss: res.Miss, Cfg: res.Cfg, Exp: "seq"})
+		}
+	}
 }
 
 // child process: resolve one name; a stack overflow kills only this process
@@ -826,9 +910,11 @@ func TestVerif(t *testing.T) {
 		if fo.class == "missing" && r.n(3) == 0 {
 			qnames = append(qnames, "ghost0") // the requested description itself is missing
 		}
+		cyclic := false
 		for _, q := range qnames {
 			_, st := vlin(fdb, q, map[string]bool{})
 			if strings.HasPrefix(st, "cycle:") {
+				cyclic = true
 				childJobs = append(childJobs, job{dir, fo, flat, fdb, q, st})
 				continue
 			}
@@ -842,6 +928,10 @@ func TestVerif(t *testing.T) {
 				vemit(vrec{Kind: "viol", Key: "resolve-order-dependent", Class: fo.class, DB: flat, Q: q,
 					What: "a fresh resolver and one that served other requests before disagree"})
 			}
+		}
+		if !cyclic {
+			seqNames := append(append([]string{}, qnames...), "ghost0", "ghost1", "nosuch")
+			vrunSequence(r, dir, fo.class, flat, seqNames, fields)
 		}
 	}
 	// cyclic requests: each in its own process, eight at a time
